@@ -7,6 +7,7 @@ import (
 	"math/rand"
 	"reflect"
 	"regexp"
+	"sort"
 	"sync"
 	"time"
 
@@ -52,14 +53,64 @@ func Scope(
 	case schema.TypeIDScope:
 		return dataType.(schema.Scope), nil
 	case schema.TypeIDObject:
-		return schema.NewScopeSchema(
-			dataType.(*schema.ObjectSchema),
-		), nil
+		// The inferred object may hold references that are linked to objects of the scope they were
+		// taken from (a workflow input property of a ref type, for example). The new scope links all
+		// its references to its own objects, so it has to contain those objects too.
+		rootObject := dataType.(*schema.ObjectSchema)
+		referenced := map[string]*schema.ObjectSchema{}
+		collectReferencedObjects(rootObject, referenced)
+		delete(referenced, rootObject.ID())
+		objectIDs := make([]string, 0, len(referenced))
+		for objectID := range referenced {
+			objectIDs = append(objectIDs, objectID)
+		}
+		sort.Strings(objectIDs)
+		objects := make([]*schema.ObjectSchema, 0, len(referenced))
+		for _, objectID := range objectIDs {
+			objects = append(objects, referenced[objectID])
+		}
+		return schema.NewScopeSchema(rootObject, objects...), nil
 	default:
 		return nil, fmt.Errorf(
 			"invalid type for output root object: %s (must be an object)",
 			dataType.TypeID(),
 		)
+	}
+}
+
+// collectReferencedObjects finds the objects that the linked references of the default namespace
+// within the given type point to, including the ones those objects refer to in turn.
+func collectReferencedObjects(t schema.Type, found map[string]*schema.ObjectSchema) {
+	switch typed := t.(type) {
+	case *schema.RefSchema:
+		if typed.Namespace() != schema.SelfNamespace || !typed.ObjectReady() {
+			return
+		}
+		object, isObjectSchema := typed.GetObject().(*schema.ObjectSchema)
+		if !isObjectSchema {
+			return
+		}
+		if _, alreadyFound := found[object.ID()]; alreadyFound {
+			return
+		}
+		found[object.ID()] = object
+		collectReferencedObjects(object, found)
+	case *schema.ObjectSchema:
+		for _, property := range typed.Properties() {
+			collectReferencedObjects(property.Type(), found)
+		}
+	case schema.UntypedList:
+		collectReferencedObjects(typed.Items(), found)
+	case schema.UntypedMap:
+		collectReferencedObjects(typed.Values(), found)
+	case schema.OneOf[string]:
+		for _, option := range typed.Types() {
+			collectReferencedObjects(option, found)
+		}
+	case schema.OneOf[int64]:
+		for _, option := range typed.Types() {
+			collectReferencedObjects(option, found)
+		}
 	}
 }
 
